@@ -2717,6 +2717,11 @@ class Interferometer(Decomposition):
             decomp_fn = getattr(dec, mesh)
             BS1, R, BS2 = decomp_fn(self.p[0], tol=tol)
 
+            if mesh == "triangular":
+                # Reck: U = T_1^-1 ... T_k^-1 D, i.e. the local phases come first and the
+                # inverse T unitaries follow in list order
+                BS1, BS2 = [], list(reversed(BS1))
+
             for n, m, theta, phi, _ in BS1:
                 theta = theta if np.abs(theta) >= _decomposition_tol else 0
                 phi = phi if np.abs(phi) >= _decomposition_tol else 0
